@@ -4,7 +4,44 @@ import common
 from common import tlc, tlc_ok, tlc_must_fail, build_driver, judge, ToolError, log, HARNESS
 import eng_eval
 
-TIERS = {"quick": dict(mc="MC_Sync.cfg", trials=40, threads=8, iters=150), "thorough": dict(mc="MC_Sync_thorough.cfg", trials=1500, threads=16, iters=300)}
+TIERS = {"quick": dict(mc="MC_Sync.cfg", trials=40, threads=8, iters=150, lock=(16, 8, 25), crowd=(5, 128, 40)),
+         "thorough": dict(mc="MC_Sync_thorough.cfg", trials=1500, threads=16, iters=300, lock=(400, 8, 40), crowd=(60, 160, 60))}
+
+
+def distinct_events(events):
+    """Thread trials repeat a few (expression, document) pairs many thousand times: the judge sees each distinct
+    (expression, document, outcome) once; returns (path, total, distinct)."""
+    seen, total = set(), 0
+    out = events + ".distinct"
+    with open(out, "w") as g:
+        for line in open(events):
+            r = json.loads(line)
+            total += r.get("mult", 1)
+            key = json.dumps([r.get("text"), r.get("doc"), r.get("out")], sort_keys=True)
+            if key in seen:
+                continue
+            seen.add(key)
+            g.write(line)
+    return out, total, len(seen)
+
+
+def crowd_pool(path):
+    """expressions that nest many function calls, on nested arrays: many threads are inside many calls at the same instant"""
+    import itertools
+    from common import to_tagged, cps
+    def cube(dims, k=0):
+        return [cube(dims[1:], k * 7 + i) for i in range(dims[0])] if dims else ((k % 9) - 4) / 2.0
+    cases = [("map(&map(&map(&map(&abs(ceil(floor(abs(@)))), @), @), @), @)", cube([5, 5, 5, 5])),
+             ("map(&map(&map(&map(&abs(ceil(floor(abs(@)))), @), @), @), @)", cube([4, 4, 4, 4])),
+             ("map(&map(&map(&sum(map(&abs(ceil(floor(abs(@)))), @)), @), @), @)", cube([5, 5, 5, 4])),
+             ("map(&map(&sum(map(&abs(@), @)), @), @)", cube([5, 5, 5])),
+             ("sort_by(@, &sum(map(&abs(floor(@)), @)))", cube([8, 8])),
+             ("max_by(@, &avg(map(&ceil(abs(@)), @)))", cube([8, 6])),
+             ("length(to_array(not_null(abs(ceil(floor(abs(@[0][0][0])))))))", cube([3, 3, 3])),
+             ("map(&length(to_string(to_array(not_null(abs(@))))), @[0][0])", cube([2, 2, 30]))]
+    with open(path, "w") as f:
+        for t, d in cases:
+            f.write(json.dumps({"text": cps(t), "doc": to_tagged(d)}) + "\n")
 
 
 def obligations(work):
@@ -62,9 +99,49 @@ def run(prop, tier, seed, work, ev):
             with open(events, "a") as f:     # the process died: that is data
                 f.write(json.dumps({"e": "sync", "thr": -1, "seq": 0, "text": common.cps("@"), "doc": {"t": "null"},
                                     "out": {"abort": p.returncode, "trial": k}}) + "\n")
-    stats, rej = judge("tv/TV_Eval.tla", None, events, work)
-    ev.add_judged("events of %d trials x %d threads" % (t["trials"], t["threads"]), stats, rej, events, nsamples=3)
-    return rejects + rej
+    dpath, total, distinct = distinct_events(events)
+    stats, rej = judge("tv/TV_Eval.tla", None, dpath, work)
+    ev.add_judged("%d trials x %d threads: %d search events, %d distinct (expression, document, outcome) judged" % (t["trials"], t["threads"], total, distinct),
+                  stats, rej, dpath, nsamples=3)
+    ev.extra["thread_events_total"] = ev.extra.get("thread_events_total", 0) + total
+    rejects += rej
+
+    def trials(mode, n, threads, iters, poolfile, evfile):
+        open(evfile, "w").close()
+        for k in range(n):
+            p = subprocess.run([drv, mode, str(seed * 100000 + 7000 + k), str(threads), str(iters), evfile, poolfile],
+                               stdout=subprocess.PIPE, stderr=subprocess.PIPE, timeout=600)
+            if p.returncode != 0:
+                if b"DRIVER-ERROR" in p.stderr:
+                    raise ToolError("%s failed: %s" % (mode, p.stderr.decode()[-500:]))
+                with open(evfile, "a") as f:
+                    f.write(json.dumps({"e": "sync", "thr": -1, "seq": 0, "text": common.cps("@"), "doc": {"t": "null"},
+                                        "out": {"abort": p.returncode, "trial": k}}) + "\n")
+    # lock-step rounds on fresh runtimes: whatever a runtime or a function object sets up lazily is set up again under contention;
+    # the pool is the signature decision table (ill-typed calls must fail under every schedule)
+    import eng_funcs
+    sig = work.path("sig.cases")
+    eng_funcs.gen_call(work, "sig", sig, 1, 3, via="doc")
+    n, th, rounds = t["lock"]
+    levents = work.path("lock.obs")
+    trials("sync-lockstep", n, th, rounds, sig, levents)
+    stats, rej = judge("tv/TV_Eval.tla", None, levents, work)
+    ev.add_judged("lock-step: %d trials x %d threads x %d rounds on fresh runtimes, signature decision table" % (n, th, rounds), stats, rej, levents, nsamples=1)
+    rejects += rej
+    # a crowd: far more threads than cores, each inside many nested calls at once (anything accounted per runtime / per process
+    # instead of per search shows as a divergent result)
+    cp = work.path("crowd.cases")
+    crowd_pool(cp)
+    n, th, iters = t["crowd"]
+    cevents = work.path("crowd.obs")
+    trials("sync-trial", n, th, iters, cp, cevents)
+    dpath, total, distinct = distinct_events(cevents)
+    ev.extra["thread_events_total"] = ev.extra.get("thread_events_total", 0) + total
+    stats, rej = judge("tv/TV_Eval.tla", None, dpath, work)
+    ev.add_judged("crowd: %d trials x %d threads on deeply nested calls (%d events, %d distinct outcomes judged)" % (n, th, total, distinct),
+                  stats, rej, dpath, nsamples=1)
+    rejects += rej
+    return rejects
 
 
 def replay(prop, path, work):
